@@ -12,7 +12,7 @@ guards are not necessary for the property; C09 owns the "no other exception" sid
 """
 from __future__ import annotations
 
-from ..facts import atoms, call_is, equality_atoms, reads_of, root_of, slice_bounds, strip
+from ..facts import abs_range, atoms, call_is, equality_atoms, reads_of, root_of, slice_bounds, strip
 from ..model import AnalysisError
 from ..terms import is_const, show, subterms, summarize
 
@@ -99,9 +99,8 @@ def run(ctx):
             root = root_of(q)
             leaks = []
             for t in reads_of(ret, root):
-                b = slice_bounds(strip(t))
-                inside = (b is not None and b[0] == q and b[2] is not None and b[2] < 0 and b[2] <= s_hi
-                          and (b[1] is None or b[1] >= 0))
+                b = abs_range(strip(t))        # constant slices compose: q[:-16][40:] reads q[40:-16]
+                inside = (b is not None and b[0] == strip(q) and b[2] < 0 and b[2] <= s_hi and b[1] >= 0)
                 if not inside:
                     leaks.append(show(t))
             ctx.ob("C03.b", FN, not leaks, "returned plaintext is computed from bytes inside the signed range only",
